@@ -34,11 +34,18 @@ CLAIMS = {
              "model of SELECT_NEXT_STEP satisfies every dispatch condition and every step that satisfies them is "
              "accepted; pop_next_job dispatches only eligible steps and answers 'nothing' only when none is "
              "eligible (on refreshed metadata); _update_meta_ready makes the cached _ready equal its definition, "
-             "which does not depend on cached columns; the defer cap. The cache invariant (every stale cached column "
-             "is covered by a flag) and the from-scratch eligibility are evaluated on the real database after every "
-             "generated request and at every dispatch decision.",
+             "which does not depend on cached columns; the defer cap; the worklist of _update_meta_after: under the "
+             "flag discipline the code maintains (an unflagged attached step satisfies its local equation or has a "
+             "flagged consumer) the refresh leaves every attached step with cached (_implied_need, _tail_time) equal to "
+             "the unique solution of the local equations, equals the from-scratch refresh as a state, changes nothing "
+             "else, and terminates in every reachable database (dependencies are acyclic after every history). The "
+             "flag discipline itself is sampled: on the model state after every request of generated histories "
+             "(executable form proved equivalent) and on the real database by the cache oracle, together with the "
+             "from-scratch eligibility at every dispatch decision.",
         note=BASE_NOTE + "Priority among eligible steps is not part of the property. Phase termination is relative to "
-             "'every started command terminates' plus the defer cap. F14 (stale _safe) was found by this oracle and fixed.",
+             "'every started command terminates' plus the defer cap. The flag discipline over all histories and the "
+             "agreement of the cached _safe column are not theorems (oracle). F14 (stale _safe) and F20 (stale "
+             "_implied_need after reset_for_rerun) were found by this oracle and fixed.",
         technique="Lean 4 proof over regenerated SQL truth tables + kernel correspondence + from-scratch scheduling oracle",
         design="9/C10",
     ),
@@ -46,11 +53,15 @@ CLAIMS = {
         text="Lean theorems on the model of UPDATE_CHECK_AFTER and dispatch: the implied need is at least the "
              "declared need, an exact target elevates any producer, a directory target spares OPTIONAL steps, need "
              "propagates from every attached consumer to its producers, the threshold rule, only steps above the "
-             "threshold are dispatched, a DEFAULT step without elevation is not built under targets. The oracle "
-             "recomputes the need of every step from its definition on the real database at every dispatch and "
-             "metadata refresh and checks the selection of revert_optional_steps.",
-        note=BASE_NOTE + "That the worklist of _update_meta_after reaches the fixpoint after any history is decided by "
-             "the oracle on generated sequences, not by a theorem yet; whole-build statements on simulated builds.",
+             "threshold are dispatched, a DEFAULT step without elevation is not built under targets; after a refresh "
+             "the cached need of an attached step is, in closed form, the maximum of the own needs (declared need, or "
+             "TARGET for a producer of a target) of the attached steps it transitively feeds; an unneeded OPTIONAL "
+             "step is not dispatched; every dispatched step is, or transitively feeds, a step whose own need exceeds "
+             "the threshold. The oracle recomputes the need of every step from its definition on the real database "
+             "at every dispatch and metadata refresh (also after restarts with other targets) and checks the "
+             "selection of revert_optional_steps.",
+        note=BASE_NOTE + "The closed form holds under the flag discipline of C10 (sampled, not a theorem over all "
+             "histories); whole-build statements on simulated builds.",
         technique="Lean 4 proof of the per-step need computation + kernel correspondence + from-scratch need oracle",
         design="9/C11",
     ),
@@ -112,11 +123,14 @@ CLAIMS = {
              "configurations that may change between requests: states and stored hashes of all file rows are mutually "
              "consistent, dependencies only link files with steps (or static trees with files), there is one node per "
              "(kind, label), and deferred=>PENDING / holding=>RUNNING for histories whose hold requests hit RUNNING steps "
-             "(the unguarded statement has a kernel-checked counterexample). These follow from a generic theorem: any "
-             "predicate preserved by the primitive writes is an invariant of every history. The creator-cycle guard "
-             "rejects reattaching a node below itself. The remaining clauses (detached <=> unreachable, acyclicity, "
-             "undeclared => detached, no internal error) are evaluated by an SQL-free oracle on the real database "
-             "after every generated request.",
+             "(the unguarded statement has a kernel-checked counterexample); a node is detached exactly when it is not "
+             "reachable from the root through creator links (the walk of RECURSIVELY_SET_DETACHED is exact, creator "
+             "links among attached nodes are well-founded); dependencies are acyclic (the recursive-sinks query is "
+             "exact, one check suffices for a batch of input edges). The first group follows from a generic theorem: "
+             "any predicate preserved by the primitive writes is an invariant of every history. The creator-cycle "
+             "guard rejects reattaching a node below itself; detaching the root is rejected. The remaining clauses "
+             "(undeclared => detached, succeeded => outputs built, no internal error) are evaluated by an SQL-free "
+             "oracle on the real database after every generated request.",
         note=BASE_NOTE + "The whole K layer is a model (SQL statements, triggers, recursive CTEs modelled by hand). I4 "
              "(SUCCEEDED => outputs BUILT) holds per director transaction and is decided on simulated builds (C01/C05). "
              "Known: internal ConsistencyError when a static declaration collides with a foreign file under a static "
